@@ -348,15 +348,34 @@ impl TryFrom<&Constraint> for PerVisibleRangeConstraints {
                     ElementOrSetOperation::SetOperation(s) => {
                         let mut v: PerVisibleRangeConstraints =
                             fold_constraint_set(s, None, true)?.as_ref().try_into()?;
-                        if s.operator == SetOperator::Intersection
-                            && (matches!(s.base, SubtypeElements::SizeConstraint(_))
-                                | matches!(
-                                    *s.operant,
-                                    ElementOrSetOperation::Element(
-                                        SubtypeElements::SizeConstraint(_)
+                        // `SIZE (..) ^ FROM (..)` constrains the size; so does a union of size
+                        // constraints, and a size constraint with an EXCEPT clause
+                        fn all_sizes(e: &ElementOrSetOperation) -> bool {
+                            match e {
+                                ElementOrSetOperation::Element(e) => {
+                                    matches!(e, SubtypeElements::SizeConstraint(_))
+                                }
+                                ElementOrSetOperation::SetOperation(s) => {
+                                    matches!(s.base, SubtypeElements::SizeConstraint(_))
+                                        && (s.operator == SetOperator::Except
+                                            || all_sizes(&s.operant))
+                                }
+                            }
+                        }
+                        let base_is_size = matches!(s.base, SubtypeElements::SizeConstraint(_));
+                        if match s.operator {
+                            SetOperator::Intersection => {
+                                base_is_size
+                                    | matches!(
+                                        *s.operant,
+                                        ElementOrSetOperation::Element(
+                                            SubtypeElements::SizeConstraint(_)
+                                        )
                                     )
-                                ))
-                        {
+                            }
+                            SetOperator::Union => base_is_size && all_sizes(&s.operant),
+                            SetOperator::Except => base_is_size,
+                        } {
                             v.is_size_constraint = true;
                         }
                         Ok(v)
@@ -568,6 +587,8 @@ fn fold_constraint_set(
         }
     }
     let folded_operant = match &*set.operant {
+        // what follows EXCEPT is ignored altogether
+        _ if set.operator == SetOperator::Except => None,
         ElementOrSetOperation::Element(e) => e.per_visible().then(|| e.clone()),
         ElementOrSetOperation::SetOperation(s) => {
             fold_constraint_set(s, char_set, range_constraint)?
